@@ -81,7 +81,8 @@ def size_symbol(text: str) -> sp.Symbol:
 class Run:
     """One execution under a fixed prefix of atom decisions."""
 
-    def __init__(self, model: Model, decisions: List[bool], consts: Dict[str, Dict[str, ast.AST]]):
+    def __init__(self, model: Model, decisions: List[bool], consts: Dict[str, Dict[str, ast.AST]], force: Optional[Dict[str, bool]] = None):
+        self.force = force or {}
         self.model = model
         self.decisions = decisions
         self.used = 0
@@ -91,11 +92,16 @@ class Run:
         self.mult: List[Any] = [sp.Integer(1)]
         self.depth = 0
         self.lemmas: List[str] = []
+        self.constraints: List[Any] = []
 
     # -- atoms ---------------------------------------------------------------
     def decide(self, key: Any, text: str) -> bool:
         if key in self.atoms:
             return self.atoms[key]
+        if text in self.force:
+            self.atoms[key] = self.force[text]
+            self.trace.append((text + " [assumed]", self.force[text]))
+            return self.force[text]
         if isinstance(key, tuple) and key and key[0] == "isinstance":
             # a value has one type: str / list / dict / … are mutually exclusive
             for k2, v2 in self.atoms.items():
@@ -362,7 +368,10 @@ class Run:
                 if len(ns) == 1:
                     return Sz(ns[0])
                 if len(ns) == 2:
-                    return Sz(ns[1] - ns[0])
+                    d_ = sp.expand(ns[1] - ns[0])
+                    if not d_.is_number:
+                        self.constraints.append(d_)  # len(range(a, b)) = b - a presupposes b >= a
+                    return Sz(d_)
                 return Sz(size_symbol(norm(c)))
             if f.id == "zip" and args:
                 return Sz(self.size_of(args[0], c.args[0]))
@@ -729,9 +738,22 @@ class PathResult:
     lemmas: List[str]
 
 
-def nonneg(expr) -> Optional[bool]:
-    """Is the polynomial non-negative for all non-negative integer symbol values?"""
+def nonneg(expr, at_least_one: Tuple[str, ...] = (), constraints=None) -> Optional[bool]:
+    """Is the polynomial non-negative for all non-negative integer symbol values (symbols named in
+    at_least_one are assumed >= 1)?"""
     e = sp.expand(expr)
+    for s_ in list(e.free_symbols):
+        if s_.name in at_least_one:
+            e = sp.expand(e.subs(s_, s_ + 1))
+    # linear single-symbol side conditions c = a*s + b >= 0 (a > 0) raise the lower bound of s
+    for c in constraints or ():
+        c = sp.expand(c)
+        fs = list(c.free_symbols)
+        if len(fs) == 1 and sp.degree(c, fs[0]) == 1:
+            a_, b_ = c.coeff(fs[0], 1), c.coeff(fs[0], 0)
+            if a_.is_number and b_.is_number and a_ > 0 and b_ < 0:
+                lo = sp.ceiling(-b_ / a_)
+                e = sp.expand(e.subs(fs[0], fs[0] + lo))
     if e.is_number:
         return bool(e >= 0)
     try:
@@ -751,7 +773,8 @@ def nonneg(expr) -> Optional[bool]:
     return None
 
 
-def analyse_block(model: Model, fi: FuncInfo, with_node: ast.With, max_paths: int = 512) -> List[PathResult]:
+def analyse_block(model: Model, fi: FuncInfo, with_node: ast.With, max_paths: int = 512, force: Optional[Dict[str, bool]] = None,
+                  at_least_one: Tuple[str, ...] = ()) -> List[PathResult]:
     """Explore every consistent decision sequence of the function up to and through the Progress block."""
     item = next(i for i in with_node.items if isinstance(i.context_expr, ast.Call) and dotted(i.context_expr.func) == "Progress")
     pcall = item.context_expr
@@ -765,7 +788,7 @@ def analyse_block(model: Model, fi: FuncInfo, with_node: ast.With, max_paths: in
     seen = 0
     while stack:
         dec = stack.pop()
-        run = Run(model, list(dec), model.consts)
+        run = Run(model, list(dec), model.consts, force)
         a = fi.node.args
         env: Dict[str, Any] = {}
         for x in a.posonlyargs + a.args + a.kwonlyargs:
@@ -802,7 +825,7 @@ def analyse_block(model: Model, fi: FuncInfo, with_node: ast.With, max_paths: in
             raise Unsupported(f"more than {max_paths} paths")
         if reached and total is not None:
             slack = sp.expand(total - 1 - run.count)
-            results.append(PathResult(run.trace, sp.expand(run.count), sp.expand(total), slack, nonneg(slack), sorted(set(run.lemmas))))
+            results.append(PathResult(run.trace, sp.expand(run.count), sp.expand(total), slack, nonneg(slack, at_least_one, run.constraints), sorted(set(run.lemmas + ["len(range(a, b)) = b - a (b >= a assumed where symbolic)"] if run.constraints else run.lemmas))))
     return results
 
 
